@@ -160,3 +160,26 @@ PROPS["C11"] = {
     "design_ref": "DESIGN.md section 5 (C11)",
     "explanation": "same-on-reaccess, fresh-on-first-access, other-topics-untouched, I-bsig, G-bind",
 }
+
+
+PROPS["C10"] = {
+    "functions": ["_event.Signal.dispatch", "_event.Signal._subscribe", "_event.Signal._check_is_bound_signal"],
+    "trusted": ["A-MS anyio memory object stream (send_nowait: closed -> ClosedResourceError, no receiver -> BrokenResourceError, room -> "
+                "buffered/handed over, else WouldBlock; never suspends; FIFO, each item once)", "A-CM contextmanager generator protocol",
+                "A-WR weakref", "A-SUB1 a subscription removes only its own stream", "warnings.warn does not raise", "pyvc list model"],
+    "assumptions": ["stream_events / filter_events / wait_event (async generator + nested exit stack) are outside the deductive reach of this build: "
+                    "covered by the bounded harness only; the composition lemma (FIFO + bracket => exact subsequence) rests on A-MS",
+                    "I_sig (open, distinct send streams in every subscriber list) is a precondition of dispatch"],
+    "undecided": ["promptness (wait_event returns as soon as ...)"],
+    "level": "other",
+    "level_text": "Partly proved, partly bounded: Signal.dispatch is verified against: rejected (UnboundSignal/TypeError) before anything is stamped "
+                  "or sent; event stamped (source, topic, time) before the first send; exactly one non-blocking send attempt per subscriber of "
+                  "this signal and none for anybody else (frame); BrokenResourceError/WouldBlock swallowed, one SignalQueueFull warning per full "
+                  "queue, ClosedResourceError impossible under I_sig; never suspends. Signal._subscribe is verified as a bracket (append, yield, "
+                  "remove of the same stream on every exit). stream_events/wait_event/filter_events: bounded harness (random histories).",
+    "level_note": "Not counted as proved: stream_events, filter_events, wait_event (bounded, scope in evidence). Trusted: A-MS, A-CM, A-WR, A-SUB1.",
+    "design_ref": "DESIGN.md section 5 (C10)",
+    "technique": "contract-based deductive verification of Signal.dispatch and Signal._subscribe (pyvc + z3) + bounded model-based harness for the stream_events/wait_event wrappers",
+    "explanation": "dispatch: one-send-attempt-per-subscriber, only-own-subscribers-touched, stamped-before-sending, never-suspends; _subscribe bracket. "
+                   "stream_events, wait_event, filter_events are covered by the bounded harness only (labelled bounded).",
+}
